@@ -154,7 +154,8 @@ def spawn_workers(binp, spec, scratch, seed, budget, workers, extra_env=None, te
         env = dict(ENV)
         env.update(VERIF_MODE="batch", VERIF_SEED=str(seed), VERIF_START=str(w), VERIF_STRIDE=str(workers),
                    VERIF_COUNT=str(spec.get("max_runs_per_worker", 10**9)), VERIF_BUDGET_S=str(budget),
-                   VERIF_OUT=os.path.join(scratch, "w%d.json" % w), VERIF_REPO=REPO, GOMAXPROCS="2")
+                   VERIF_OUT=os.path.join(scratch, "w%d.json" % w), VERIF_REPO=REPO, GOMAXPROCS=spec.get("gomaxprocs", "2"),
+                   VERIF_SCRATCH=scratch, TMPDIR=scratch)
         env.update(extra_env or {})
         lim = spec.get("mem_kb", 6 * 1024 * 1024)
         cmd = "ulimit -v %d; exec %s -test.run '^%s$' -test.timeout 0 -test.count 1" % (lim, binp, test_run)
@@ -173,7 +174,7 @@ def spawn_workers(binp, spec, scratch, seed, budget, workers, extra_env=None, te
 def replay_once(binp, scratch, failure_path, tag, test_run="TestSim", extra_env=None):
     env = dict(ENV)
     outp = os.path.join(scratch, "replay-%s.json" % tag)
-    env.update(VERIF_MODE="replay", VERIF_REPLAY=failure_path, VERIF_OUT=outp, VERIF_REPO=REPO, GOMAXPROCS="2")
+    env.update(VERIF_MODE="replay", VERIF_REPLAY=failure_path, VERIF_OUT=outp, VERIF_REPO=REPO, GOMAXPROCS="2", VERIF_SCRATCH=scratch, TMPDIR=scratch)
     env.update(extra_env or {})
     p = subprocess.run([binp, "-test.run", "^%s$" % test_run, "-test.timeout", "0", "-test.count", "1"], env=env, cwd=scratch,
                        stdout=subprocess.PIPE, stderr=subprocess.STDOUT, text=True, timeout=900)
@@ -419,11 +420,7 @@ def cmd_check(args):
         args.seed = int(os.environ.get("VERIF_SEED", "1"))
     if args.tier is None:
         args.tier = os.environ.get("VERIF_TIER", "quick")
-    if spec["engine"] == "sched":
-        check_sched(pid, spec, args)
-    else:
-        import storage
-        storage.check(pid, spec, args, sys.modules[__name__])
+    check_sched(pid, spec, args)
 
 
 def cmd_replay(args):
@@ -431,13 +428,9 @@ def cmd_replay(args):
     pid = f["property"]
     spec = CHECKS[pid]
     with Scratch() as scratch:
-        if spec["engine"] == "sched":
-            overlay, _ = instrument(spec, scratch)
-            binp = build_harness(spec, scratch, overlay)
-            r = replay_once(binp, scratch, os.path.abspath(args.file), "x", extra_env={"VERIF_TRACE": "1"})
-        else:
-            import storage
-            r = storage.replay(pid, spec, args, sys.modules[__name__], scratch)
+        overlay, _ = instrument(spec, scratch)
+        binp = build_harness(spec, scratch, overlay)
+        r = replay_once(binp, scratch, os.path.abspath(args.file), "x", extra_env={"VERIF_TRACE": "1"})
         print(json.dumps(r, indent=1)[:20000])
         if r.get("reproduced"):
             print("VIOLATION property=%s replay=%s" % (pid, os.path.abspath(args.file)))
